@@ -213,17 +213,74 @@ def _loop_heads(lines):
     return out
 
 
-def _find_anchor(lines, anchor, nth, origin_ok=None):
-    c = [k for k, l in enumerate(lines) if anchor in l and (origin_ok is None or origin_ok[k])]
-    if not c:
+RELOCATED = []   # (anchor, chosen line) pairs of the current assembly, reported in the evidence
+
+
+def _similar(anchor, line):
+    import difflib
+    a, b = anchor.strip(), line.split('//')[0].strip()
+    if not a or not b:
+        return 0.0
+    if a in b:
+        return 1.0
+    # compare the anchor with the best same-length window start (anchors are usually line prefixes)
+    r1 = difflib.SequenceMatcher(None, a, b[:len(a) + 8]).ratio()
+    r2 = difflib.SequenceMatcher(None, a, b).ratio()
+    return max(r1, r2)
+
+
+def _line_map(base, cur):
+    """map line indices of the baseline text to line indices of the current text through a line diff"""
+    import difflib
+    ops = difflib.SequenceMatcher(None, [l.strip() for l in base], [l.strip() for l in cur], autojunk=False).get_opcodes()
+
+    def m(i, mode):
+        for tag, i1, i2, j1, j2 in ops:
+            if i1 <= i < i2:
+                if tag == 'equal':
+                    return j1 + (i - i1)
+                if tag == 'replace':
+                    if j2 - j1 == i2 - i1:
+                        return j1 + (i - i1)
+                    return min(j1 + (i - i1), j2 - 1)
+                if tag == 'delete':
+                    # the line is gone: `after` goes after the preceding line, `before`/`at` before the following one
+                    if mode == 'after':
+                        return j1 - 1 if j1 > 0 else None
+                    return j1 if j1 < len(cur) else None
+        return None
+    return m
+
+
+def _find_anchor(lines, anchor, nth, origin_ok=None, fuzzy=True):
+    """exact substring match first; if the anchored line was edited (a constant, an operator, a field name changed),
+    fall back to the unambiguous most similar code line (difflib ratio >= 0.72, clearly better than the runner-up).
+    A relocation is logged; if nothing qualifies the anchor is lost (unit undecided)."""
+    ok = lambda k: origin_ok is None or origin_ok[k]
+    c = [k for k, l in enumerate(lines) if anchor in l and ok(k)]
+    want = 1 if nth is None else nth
+    if c and (nth is not None or len(c) == 1):
+        if want <= len(c):
+            return c[want - 1]
+    if c and nth is None and len(c) != 1:
+        raise UnitError('anchor ambiguous (%d matches): %r' % (len(c), anchor))
+    if not fuzzy:
         raise UnitError('anchor lost: %r' % anchor)
+    # fuzzy recovery
+    scored = [(_similar(anchor, l), k) for k, l in enumerate(lines) if ok(k)]
+    cand = sorted([k for sc, k in scored if sc >= 0.72])
     if nth is None:
-        if len(c) != 1:
-            raise UnitError('anchor ambiguous (%d matches): %r' % (len(c), anchor))
-        return c[0]
-    if nth > len(c):
-        raise UnitError('anchor #%d lost: %r' % (nth, anchor))
-    return c[nth - 1]
+        best = sorted(scored, reverse=True)[:2]
+        if best and best[0][0] >= 0.72 and (len(best) == 1 or best[0][0] - best[1][0] >= 0.08):
+            RELOCATED.append((anchor, lines[best[0][1]].strip()))
+            return best[0][1]
+        raise UnitError('anchor lost: %r' % anchor)
+    if want <= len(cand):
+        # the n-th similar line, only if the number of similar lines equals the number the unit expects to exist
+        k = cand[want - 1]
+        RELOCATED.append((anchor + ' #%d' % want, lines[k].strip()))
+        return k
+    raise UnitError('anchor #%d lost: %r' % (want, anchor))
 
 
 def _parse_anchor_args(rest):
@@ -248,7 +305,7 @@ class Woven:
         self.origin = []     # per line: dict(kind, file, line, fn, label)
 
 
-def weave(item, ops, twin, fnname, rewrite_log):
+def weave(item, ops, twin, fnname, rewrite_log, baseline=None, snapshot=None):
     """item: dict(text,line,file).  ops: list of (op, args, payload_lines, unit_line).
     Returns (lines, origins)."""
     subs = []
@@ -272,8 +329,33 @@ def weave(item, ops, twin, fnname, rewrite_log):
         if op == 'foriter':
             text = _name_for_iterator(text, args, fnname)
     lines = text.split('\n')
+    if snapshot is not None:
+        snapshot.append(text)
     origin = [{'kind': 'code', 'file': item['file'], 'line': item['line'] + k, 'fn': fnname} for k in range(len(lines))]
     is_code = lambda: [o['kind'] == 'code' for o in origin]
+    base_lines = baseline.split('\n') if (baseline is not None and baseline != text) else None
+    base_map = _line_map(base_lines, lines) if base_lines is not None else None
+    cur0 = list(lines)
+
+    def locate(anchor, nth, mode):
+        """index in the (partly woven) `lines` of the source line an anchor denotes.  If a baseline snapshot of this
+        item exists and the current text differs from it, the anchor is resolved on the BASELINE text (where it was
+        written) and carried over to the current text through a line diff, like a patch hunk: an edited line maps to its
+        replacement, a deleted line to its neighbour.  Otherwise (or if that fails) the anchor is searched directly."""
+        if base_map is not None:
+            try:
+                b = _find_anchor(base_lines, anchor, nth, None, fuzzy=False)
+                c = base_map(b, mode)
+                if c is not None:
+                    want = item['line'] + c
+                    for k, o in enumerate(origin):
+                        if o['kind'] == 'code' and o['line'] == want:
+                            if anchor not in cur0[c]:
+                                RELOCATED.append((anchor + (' #%d' % nth if nth else ''), cur0[c].strip()))
+                            return k
+            except UnitError:
+                pass
+        return _find_anchor(lines, anchor, nth, is_code())
 
     def insert(at, payload, label, uline):
         for n, p in enumerate(payload):
@@ -320,7 +402,7 @@ def weave(item, ops, twin, fnname, rewrite_log):
                     raise UnitError('loop #%d lost in %s' % (nth, fnname))
                 ln = heads[nth - 1]
             else:
-                ln = _find_anchor(lines, anchor, nth, is_code())
+                ln = locate(anchor, nth, 'at')
             # the loop head may span lines; find the `{` that opens the loop body:
             joined = '\n'.join(lines)
             start = sum(len(l) + 1 for l in lines[:ln])
@@ -348,13 +430,31 @@ def weave(item, ops, twin, fnname, rewrite_log):
             lines.insert(bl + 1, tail)
             origin.insert(bl + 1, dict(o))
             insert(bl + 1, payload, 'loop', uline)
+        elif op == 'entry':
+            # payload right after the opening brace of the function body: no text anchor that a code change could lose
+            joined = '\n'.join(lines)
+            bo = _find_sig_body_open(joined)
+            # the spec may already have been woven between signature and body: find the body brace = first `{` at depth 0
+            # that is followed (eventually) by code lines; _find_sig_body_open returns the first depth-0 brace after `fn`,
+            # which is the body brace as long as `//@entry` precedes `//@spec` in the unit (documented)
+            ln = joined.count('\n', 0, bo)
+            col = bo - (joined.rfind('\n', 0, bo) + 1)
+            head, tail = lines[ln][:col + 1], lines[ln][col + 1:]
+            o = origin[ln]
+            lines[ln] = head
+            lines.insert(ln + 1, tail)
+            origin.insert(ln + 1, dict(o))
+            insert(ln + 1, payload, 'proof', uline)
         elif op in ('after', 'before'):
             anchor, nth = _parse_anchor_args(args)
-            ln = _find_anchor(lines, anchor, nth, is_code())
+            ln = locate(anchor, nth, op)
             insert(ln + 1 if op == 'after' else ln, payload, 'proof', uline)
         elif op == 'probe':
             anchor, nth = _parse_anchor_args(args)
-            ln = _find_anchor(lines, anchor, nth, is_code())
+            try:
+                ln = locate(anchor, nth, 'after')
+            except UnitError:
+                continue   # a vacuity probe whose anchor line changed is skipped (the entry probe remains)
             if twin:
                 insert(ln + 1, ['proof { if vacuity_probe_guard(%d) { assert(false); } } // VACUITY-PROBE' % uline], 'probe', uline)
         else:
@@ -391,7 +491,7 @@ def parse_extract_args(rest):
     return f, container, kind, name, nth, rest_kv
 
 
-def assemble(unit_path, repo, twin=False, root=None):
+def assemble(unit_path, repo, twin=False, root=None, snapshots=None):
     root = root or os.path.dirname(os.path.dirname(os.path.abspath(unit_path)))
     src_lines = open(unit_path, encoding='utf-8').read().split('\n')
     out, origin = [], []
@@ -447,7 +547,9 @@ def assemble(unit_path, repo, twin=False, root=None):
         elif word == 'include':
             do_include(rest, i + 1)
             i += 1
-        elif word in ('extract', 'block'):
+        elif word in ('extract', 'block', 'extract?'):
+            optional = word.endswith('?')
+            word = word.rstrip('?')
             f, container, kind, name, nth, kv = parse_extract_args(rest)
             ops = []
             i += 1
@@ -486,9 +588,22 @@ def assemble(unit_path, repo, twin=False, root=None):
                     item['line'] -= 1
                     ops = [o for o in ops if o[0] != 'wrap']
             except ExtractError as e:
+                if optional:
+                    # `//@extract? ...`: a helper item that may legitimately disappear (the code that used it changed too)
+                    meta['rewrites'].append(('optional-extract-missing', '%s %s %s' % (f, kind, name), str(e)))
+                    continue
                 raise UnitError('extract %s %s %s: %s' % (f, kind, name, e))
             fq = (container + ' :: ' if container else '') + kind + ' ' + name
-            lines, orgs = weave(item, [tuple(o) for o in ops], twin, fq, meta['rewrites'])
+            del RELOCATED[:]
+            meta['_nextract'] = meta.get('_nextract', 0) + 1
+            bpath = os.path.join(root, 'baseline', os.path.basename(unit_path)[:-3], '%03d.txt' % meta['_nextract'])
+            btext = open(bpath, encoding='utf-8').read() if os.path.exists(bpath) else None
+            snap = [] if snapshots is not None else None
+            lines, orgs = weave(item, [tuple(o) for o in ops], twin, fq, meta['rewrites'], baseline=btext, snapshot=snap)
+            if snapshots is not None:
+                snapshots.append((meta['_nextract'], snap[0] if snap else ''))
+            for a_, l_ in RELOCATED:
+                meta['rewrites'].append(('anchor-relocated', a_, l_))
             meta['extracted'].append({'file': f, 'item': fq, 'line': item['line'],
                                       'lines': item['text'].count('\n') + 1, 'block': word == 'block'})
             if kind == 'fn':
